@@ -181,3 +181,11 @@ func Harness_C07_t_two_big_messages() {
 func Harness_C07_t_small_messages_any_cuts() {
 	c07Run([]int{0, 1, 2, 3}, 2, 2, 1, []int{1, 2, 4096})
 }
+
+// A short or full-size frame followed by a full-size one, one network cut within one byte of
+// a frame-field boundary (in particular: a segment that carries the end of the first frame
+// and the first bytes - but not all - of the second, so that the reader has to shift its
+// buffer while a frame is half received).
+func Harness_C07_q_frame_then_full_frame() {
+	c07Run([]int{1, 1024}, 2, 0, 1, []int{4096})
+}
